@@ -167,4 +167,91 @@ PROPS = {
         "modelled": ["newV2Session, openSession/rakpMessage1/rakpMessage3, buildAndSendPayload, the calculate* functions, algorithm constructors and determineCipherSuite are hand models tied by correspondence"],
         "assumptions": ["the multi-suite path's discovery (RetrieveSupportedCipherSuites) is abstracted to its result in `determine`; its own correctness is C16"],
     },
+    "C15": {'claim': 'PARTIAL. Proved in Lean for all inputs: the model of sensor_reader.go (NewSensorReader, both Read methods), ConversionFactors.ConvertReading, '
+          'Linearisation.Lineariser and AnalogDataFormat.Parser, with the float64 arithmetic replaced by the EXACT value of the same expression as a decimal '
+          '(mantissa, exp10) and each lineariser by its name, equals the specification: the decimal denotes the core-Rat value (M*x + B*10^K1)*10^K2 for ALL '
+          "integers (convert_exact); the raw byte is read as unsigned / 1's / 2's complement as the record states (raw_interpretation, on the SSA-regenerated "
+          'parsers of C20); code 0 gives the linear reader, codes 1..11 the linearised reader holding the function the specification names for that code, '
+          'codes >= 12 the non-linear error, analog format 3 the not-analog error, nothing else is refused (reader_selection, reader_refused_iff, '
+          'lineariser_table over all 256 keys); reading-unavailable (bit 5) gives ErrSensorReadingUnavailable, else scanning disabled (bit 6 clear) gives '
+          "ErrSensorScanningDisabled, else a value, exactly (flags, flags_iff; with both conditions present the code reports 'unavailable', bits 7 and 4:0 "
+          'have no influence); and the composition from the bytes of any well-formed Full Sensor Record (sensor_reading_spec, through the C07 decode theorem). '
+          'NOT proved (outside Lean core: no IEEE-754 model, no real analysis): that the float64 the code returns is within rounding of the exact decimal, and '
+          'that math.Log, math.Pow(f, 1./3), ... compute the functions they are read as. These are covered by the tolerance check of the correspondence run '
+          "only: math/big exact evaluation of the linear part (<= 6 u of the terms' magnitudes, u = 2^-53; worst seen 3.1 u) and independently computed "
+          'linearisations (1e-12 relative, 1e-15 absolute for the logarithms) over 256 raw bytes x 3 formats x 12 functions with boundary-complete and random '
+          'factors. That check finds the one defect: the cube root (code 0Bh) of a negative value is NaN (math.Pow with a negative base).',
+ 'note': 'partial: float rounding and the transcendental functions are outside Lean and covered by the tolerance check only. trusted: Lean kernel; the hand '
+         'model of sensor_reader.go tied by the correspondence run (reader type by reflection, lineariser identified by code pointer against '
+         "linearisationLinearisers, factors/reading read from the reader's own fields); the reading of each Go math expression as the specification's function "
+         "(Lemmas.Sensor.denotes); Go's math package as the numeric reference; SendCommand abstracted to (completion code, decode of the response data) - the "
+         'exchange itself is C03/C04/C10/C11',
+ 'technique': 'Lean 4 proof (core Rat, decide +kernel over the 256-entry tables and flag bytes, C20/C07 theorems reused) + differential correspondence on '
+              'exact decimals + reference evaluation with math/big for the floating-point part',
+ 'ref': '§5 C15',
+ 'proofs': ['Bmc.Proofs.C15'],
+ 'scenarios': ['conv'],
+ 'rule': 'every op builds the real reader from a decoded record and reads once through a real V2 session against the reference BMC. 256 raw bytes x 3 analog '
+         'formats x 12 linear/linearised functions x 4 factor sets (thorough 21); every combination of {min,-1,0,1,max} for M, B, K1, K2 (625 sets) x 3 '
+         'formats x {identity + 1 function} x 6 raw bytes (thorough: all 12 functions x 16 raw bytes, and all 256 raw bytes for the linear formula); 4000 '
+         '(thorough 120000) fully random ops; all 256 flag bytes x 6 readers; every code 12..127 x 4 formats and format 3 x codes 0..11 (refusals); non-normal '
+         'completion codes, 2/4/5/6-byte responses, malformed records. Non-trivial = a reader is built and a value converted (reading available, scanning '
+         'enabled); distinct = distinct op line.',
+ 'modelled': ['NewSensorReader / newLinearSensorReader / newLinearisedSensorReader / both Read methods, Lineariser(), Parser() are hand models tied by '
+              "correspondence (table keys from factgen constants, IsLinear/IsLinearised and the three parsers from the SSA translation); ConvertReading's "
+              'float64 arithmetic is NOT modelled - its exact counterpart is; Session.SendCommand is abstracted to its result'],
+ 'assumptions': ["Go's math package (Log, Log2, Log1p, Exp, Exp2, Cbrt, big.Float.Sqrt) is the numeric reference for the eleven functions",
+                 "a float64 counts as 'within rounding' of the exact linear value when it is within 6*2^-53 of it relative to |M*x| + |B*10^K1| (five "
+                 'roundings, cancellation between the two terms allowed for)']},
+    "C06": {'claim': 'For every request layer of pkg/ipmi and pkg/dcmi (Get Channel Authentication Capabilities, Get Channel Cipher Suites, Get Session Info in its index '
+          '/ handle / ID forms, Set Session Privilege Level, Close Session, Chassis Control, Get SDR, Get Sensor Reading with any owner LUN, the commands '
+          'without request data, RMCP+ Open Session Request with its three algorithm payloads, RAKP 1, RAKP 3, DCMI Get Capabilities Info, Get Power Reading, '
+          "Get DCMI Sensor Info) Lean theorems state that an independent reference parser written from the IPMI/DCMI tables recovers exactly the caller's "
+          'field values from the model of SerializeTo, for ALL field values within the wire width (explicit decidable wf) and all variable lengths; '
+          'packet_parses / payload_packet_parses / command_packet_parses: the session-less datagram built by buildAndSendCommand / buildAndSendPayload around '
+          'ANY body parses to RMCP (version 6, sequence FF, class IPMI, no ACK), a v2.0 wrapper with the right payload type, the null session and length = '
+          "rest, and an IPMI message with two valid checksums, rsAddr 20h, the specification's NetFn / command / group-extension byte or OEM IANA of that "
+          "command, the caller's LUN, rqAddr 81h, and that body; the library's operation table equals the specification's command table entry by entry; a user "
+          'name over 16 bytes and privilege level Callback are refused (error, nothing transmitted). The models are tied to the code byte for byte on every '
+          'run (each layer through gopacket.SerializeLayers, whole datagrams through the real V2SessionlessTransport.SendCommand, the high-level API and a '
+          'real NewV2Session handshake over the verif transport hook), and a reference parser written in Go, independent of library and model, must recover '
+          "the caller's fields from every transmitted datagram. In-session packets are covered by C03.",
+ 'note': 'trusted: Lean kernel; the transcription of the request tables in Spec/Requests.lean (reserved bits must be zero); hand-written serialiser models '
+         "tied by byte-exact correspondence; gopacket's SerializeBuffer (Prepend/AppendBytes) modelled as list concatenation; float division in "
+         'rollingAvgPeriodByte assumed exact on non-negative durations (cross-checked at every unit boundary +-1 ns and on 20000 random periods in the '
+         'thorough tier)',
+ 'technique': 'Lean 4 proof (encode models vs independent reference parser; decide +kernel for bit fields over all 256 byte values, simp/omega for '
+              'little-endian integers and the length field, checksum lemma for data of every length) + byte-exact differential correspondence + Go '
+              'reference-parser verdicts on transmitted datagrams',
+ 'ref': '§5 C06',
+ 'proofs': ['Bmc.Proofs.C06'],
+ 'scenarios': ['enc'],
+ 'rule': 'enc: every request layer; each bit-field exhaustively over the whole Go byte (values beyond the wire width are class M = not claimed), all 256 '
+         'session-info indexes, privilege levels, chassis controls, sensor numbers, DCMI parameters, RAKP 3 statuses; user-name lengths 0..24 and up to 1000 '
+         '(over 16 must be refused); AuthCode lengths 0..40; wildcard/explicit x every algorithm byte per payload; power-reading periods at every unit '
+         'boundary +-1 ns, every whole unit 1..63 of s/min/h/d, sub-second, 400 (thorough 20000) random, the 63-day clamp, negative periods as class M; '
+         'thorough: all 131072 authcaps triples and all 65536 in-width cipher-suite triples. pkt: every NetFn byte x every LUN 0..3, every LUN byte, every '
+         'command and defining-body byte, enterprise numbers around 2^24, every body length 0..300 (thorough 0..2000) and around the 16-bit length limit, '
+         'extreme checksum bodies. pktcmd: all 16 commands through the high-level API (GetSystemGUID, GetChannelAuthenticationCapabilities, dcmi commander, '
+         "SendCommand with the library's Cmd types) with field sweeps, RetrieveSupportedCipherSuites over several pages, and the three setup datagrams of real "
+         'NewV2Session handshakes (user-name lengths 0..20, every privilege byte, every 6-bit algorithm number in each position). Non-trivial = in-domain op '
+         'with a non-zero field (enc) / every in-domain datagram (pkt, pktcmd); distinct = distinct op line.',
+ 'modelled': ['SerializeTo of the 14 request layers, Message/V2Session/RMCP SerializeTo, buildAndSendCommand/buildAndSendPayload layer stacking, the operation '
+              'table and RemoteLUN() are hand models tied by correspondence; gopacket SerializeBuffer and layers.RMCP are modelled, not verified',
+              'out of wire width (channel >= 16, privilege >= 16, chassis control >= 16, algorithm >= 64, list index >= 64, NetFn >= 64 or odd, LUN >= 4, '
+              'enterprise >= 2^24, power mode other than 1/2, negative period): the code masks or overflows into neighbouring bits; modelled and compared '
+              '(class M) but not claimed'],
+ 'assumptions': ['crypto/rand replaced by a fixed reader in the harness so that the RAKP 1 random number is an input',
+                 'the session-less retry loop re-sends the buffer serialised once (first datagram captured; retries are the subject of C10)']},
+    "C18": {
+        "claim": "conservation: for EVERY history of dials, session opens/closes and commands, each with ANY sequence of per-attempt outcomes (final code, temporary code, junk, lost), and from any starting counter values, the instrumentation model's counters change by exactly: command attempts = calls per name, command failures = calls that returned an error (incl. a response body that fails to decode), retries = runs of the retry closure beyond the first of each call, responses per completion code = valid responses received, session/connection open attempts and failures = opens tried/failed, gauges = opens minus closes (gauges_do_not_drift for matched histories). Proved by induction over histories with per-call laws by induction over the attempt list. The model's increments are tied to the code by comparing prometheus.DefaultGatherer deltas after real histories (real handshakes, real in-session and session-less commands with scripted replies, real failing dial) with the model's counters, letter for letter.",
+        "note": "trusted: Lean kernel; the instrumentation model Proto/Metrics.lean (hand-written from the Inc()/Dec() sites; tied by the gatherer-delta correspondence); the Prometheus client library (internally synchronised counters); the mapping from scripted reply letters to the abstract outcomes final/temp/junk/lost is the harness's (replies to other commands and undecodable replies are junk: not counted as responses); a retry-closure run whose Send fails because the context expired counts as a retry (the datagram was handed to the transport)",
+        "technique": "Lean 4 proof (conservation laws by induction over histories and attempt lists) + differential correspondence of Prometheus gatherer deltas",
+        "ref": "§5 C18",
+        "proofs": ["Bmc.Proofs.C18"],
+        "scenarios": ["hist"],
+        "rule": "150 (thorough 3000) random histories of 5..60 events over {dial via hook, failing real dial, close connection, session open ok / wrong password, close session with 6 scripts, in-session and session-less commands of three names (one whose response body never decodes) with random outcome scripts of 0..5 letters over {F,E,B,T,X,G,L}}. Non-trivial = history with at least one failure and one retried command; distinct = distinct op line.",
+        "modelled": ["every Inc()/Dec() of connection.go, session.go, v2sessionless.go, v2session.go, v2session_new.go, bmc.go, sessionless_transport.go as a step function"],
+        "assumptions": ["Close called twice on one session/connection is outside the property (matched opens and closes)"],
+    },
 }
